@@ -352,7 +352,8 @@ Inductive op :=
 | ORaw (m : pmsg)
 | OBindEnter
 | OBindExit
-| OBindRaise (k : nat).     (* an exception leaves the k innermost blocks *)
+| OBindRaise (k : nat)      (* an exception leaves the k innermost blocks *)
+| OSync (id : Z).           (* yield from server.sync() (real-time mode); id = the uid of the '/sync' *)
 
 Fixpoint lookupZ (k : Z) (l : list (Z * Z)) : option Z :=
   match l with [] => None | (a, b) :: t => if a =? k then Some b else lookupZ k t end.
@@ -947,7 +948,7 @@ Definition obj_step (s : st) (o : op) : res :=
     | None => fail s EOther
     end
   | ORaw m => ok s [SMsg m]
-  | OBindEnter | OBindExit | OBindRaise _ => ok s []
+  | OBindEnter | OBindExit | OBindRaise _ | OSync _ => ok s []
   end.
 
 (* BundleNetAddr.__exit__ on normal exit: _send_last_bundle -> save_addr.send_clumped_bundles *)
@@ -956,6 +957,29 @@ Definition flush (collected : list pmsg) : list send :=
 
 Fixpoint drop_n {A} (n : nat) (l : list A) : list A :=
   match n, l with O, _ => l | S k, _ :: t => drop_n k t | S _, [] => [] end.
+
+(* server.sync(): outside bind() a '/sync' bundle; inside, BundleNetAddr.sync first sends what the
+   block collected since the last sync to the enclosing address (_send_last_bundle), then the enclosing
+   address syncs (an enclosing block flushes too), then the marker is set: the block stays open with
+   an empty "since the last sync" part *)
+Fixpoint sync_fuel (fuel : nat) (stk : list (list pmsg)) (id : Z) : list (list pmsg) * list wev * option err :=
+  match stk with
+  | [] => ([], [WBundle PNone [("/sync", [AInt id])]], None)
+  | top :: rest =>
+    match fuel with
+    | O => (stk, [], Some EOther)
+    | S f =>
+      let '(rest1, ev1, e1) := route rest (flush top) in
+      match e1 with
+      | Some _ => (top :: rest1, ev1, e1)
+      | None =>
+        let '(rest2, ev2, e2) := sync_fuel f rest1 id in
+        (match e2 with Some _ => top | None => [] end :: rest2, ev1 ++ ev2, e2)
+      end
+    end
+  end.
+(* route keeps the number of open blocks, so one unit of fuel per block is enough *)
+Definition sync_stack (stk : list (list pmsg)) (id : Z) := sync_fuel (List.length stk) stk id.
 
 (* one op: new state, what reached the OSC interface, error *)
 Definition step (s : st) (o : op) : st * list wev * option err :=
@@ -969,6 +993,7 @@ Definition step (s : st) (o : op) : st * list wev * option err :=
       (set_stack s stk, evs, e)
     end
   | OBindRaise k => (set_stack s (drop_n k (stack s)), [], None)
+  | OSync id => let '(stk, evs, e) := sync_stack (stack s) id in (set_stack s stk, evs, e)
   | _ =>
     let '(s1, sends, e) := obj_step s o in
     let '(stk, evs, e2) := route (stack s1) sends in
